@@ -27,4 +27,9 @@ CHECKS = {
         "note": "Trusted: z3, symx proxies, the command-level NCP stub, the literal list of capacity settings. User override values are concrete (voluptuous rejects proxies). Bounds: at most two overrides; override harness reports 0 for untouched settings.",
         "technique": SYMX,
     },
+    "C03": {
+        "text": "bellows/ash.py is compiled from source into a namespace with solver-aware bytes/bytearray/frozenset/crc_hqx, so control fields (3-bit numbers, flag bits, 8-bit reset codes), payload bytes, CRC bytes and 1-2-bit corruption masks stay symbolic through the real to_bytes/from_bytes/parse_frame/_stuff_bytes/_unstuff_bytes/_write_frame. Against the independent reference codec every path asserts: encoding and written wire bytes equal the reference, parse_frame(reference bytes) returns the fields, any accepted byte string is the canonical encoding of its result and classified per the control-byte table, stuffing output has no reserved byte and unstuffs back, a valid frame with one or two flipped bits is rejected (unsat), LFSR sequence for all lengths 0..256, long payloads up to 200 bytes.",
+        "note": "Trusted: z3, symx byte/CRC models (validated path-wise against the unshadowed import), refs/ashref.py. Bounds: symbolic payload <= 2 (quick) / 5 (thorough) bytes, accepted strings <= 5 / 7 bytes, corruption of frames <= 4 / 6 bytes; payloads 129..200 bytes as concrete pattern with two symbolic bytes.",
+        "technique": SYMX,
+    },
 }
